@@ -219,14 +219,15 @@ class StreamWorld(World):
               "reconnect_within_linger", "reconnect_after_linger", "terminated_error", "client_local_closed",
               "streaming_disabled", "two_proxies", "concurrent_streams", "multiplex", "thread", "housekeeping_observed",
               "temp_proxy_close", "client_local_stop", "preempted", "raced",
-              "connection_dropped", "continued_after_drop", "concurrent_ops", "client_correlation_id", "disconnect_during_table_change", "chatter", "combined", "combined_slave_idle_expiry", "external_loop", "reply_lost", "continued_after_lost_reply", "fetch_during_disconnect", "stalled", "foreign_thread_close", "foreign_thread_finalize"]
+              "connection_dropped", "continued_after_drop", "concurrent_ops", "client_correlation_id", "disconnect_during_table_change", "chatter", "combined", "combined_slave_idle_expiry", "external_loop", "reply_lost", "continued_after_lost_reply", "fetch_during_disconnect", "stalled", "foreign_thread_close", "foreign_thread_finalize", "transient_socket_errors"]
     # also counted, but too schedule-dependent to demand: "fetch_before_old_disconnect", "expired_but_still_answers"
     RULE = ("plan = (server type, serializer, ITER_STREAMING on/off, ITER_STREAM_LIFETIME in {0,5,20}, ITER_STREAM_LINGER in "
             "{0,3,10}, 18% of the multiplex plans 'combined': the streams live on a second daemon served by the first one's loop (Daemon.combine), "
             "violation keys then end in ':combined', 30% of the thread-server plans are the short focus shape 'reconnect races the old connection's "
             "teardown' (p_stall inside _clientDisconnect; release/drop, reconnect and next at once, once or twice; advance linger+5; next), 12% of the other plans 'external_loop' (own select loop + daemon.events(), keys end in "
             "':external-loop'), next ops may carry an in-flight fault reply_rst / reply_timeout with MAX_RETRIES in {0,1,2} and an optional "
-            "1 s proxy timeout, 1-2 proxies, 1-4 stream sources (generator/list, 0-8 items, optional ValueError at position k), 6-26 ops "
+            "1 s proxy timeout, 10% of the plans inject transient socket errors (net p_retry_errno 0.05/0.2, retry_burst 3/16/20) on the "
+            "server's (thread + COMMTIMEOUT) or the clients' (proxy timeout) sockets, 1-2 proxies, 1-4 stream sources (generator/list, 0-8 items, optional ValueError at position k), 6-26 ops "
             "open/next/close/release/reconnect/drop/advance{0.5..30 s} with optional settle after each (drop = the network resets "
             "the proxy's connection while nothing is in flight; 15% of the thread-server plans also set COMMTIMEOUT=3 s so that the "
             "server closes idle connections itself; par = {release|drop of one proxy} concurrently with {open|next|close on a stream "
@@ -258,6 +259,10 @@ class StreamWorld(World):
                    "an iterator may be closed or dropped (finalised) by a thread other than its proxy's owner only when it is out of sync "
                    "with a connected proxy (close_stream then goes through a temporary copy owned by the closing thread); otherwise the "
                    "driver lets the owner do it (in sync it would use the proxy itself and fail the owner check - the caller's fault)",
+                   "transient socket errors (EAGAIN / EINTR bursts on sockets in timeout mode) only make calls take virtual seconds; they are "
+                   "injected either on the server's sockets (COMMTIMEOUT, clients without a timeout) or on the clients' (proxy timeout), so a "
+                   "slow server never meets an impatient client; before looking at the table the driver waits until the server has read "
+                   "whatever was sent to it",
                    "the background 'chatter' client (30% of the plans: one ping every POLLTIMEOUT/4 s on its own connection) is not part "
                    "of the model",
                    "when the server's disconnect step fails before reaching the clientDisconnect hook the connection has ended all the "
@@ -506,6 +511,21 @@ class StreamWorld(World):
         elif rng.random() < 0.12:
             # the daemon is never run by requestLoop(): the application's own loop selects on daemon.sockets and calls daemon.events()
             plan["external_loop"] = True
+        if not stall and rng.random() < 0.10:
+            # transient socket errors: recv()/send() on sockets in timeout mode fail with EAGAIN / EINTR, in bursts of up to
+            # retry_burst consecutive failures (socketutil retries with a growing back-off delay: 16-20 retries cost 9-15 virtual s
+            # inside one call).  Either the server's sockets (thread server with COMMTIMEOUT, patient clients) or the clients'
+            # (proxy timeout): never both, so that a slow server cannot run into the client's timeout.
+            plan["net"]["p_retry_errno"] = rng.choice([0.05, 0.2])
+            plan["net"]["retry_burst"] = rng.choice([3, 16, 20])
+            if servertype == "thread" and not race and not par and rng.random() < 0.5:
+                plan["commtimeout"] = 3.0
+                plan["timeout"] = 0.0       # explicitly none (a proxy's default timeout is config.COMMTIMEOUT)
+                plan["net"]["retry_sides"] = "s"
+            else:
+                plan["commtimeout"] = 0.0
+                plan["timeout"] = 1.0
+                plan["net"]["retry_sides"] = rng.choice(["c", "all"])
         return plan
 
     def line_codes(self, plan):
@@ -547,13 +567,6 @@ class StreamWorld(World):
         ctx.probe(plan["servertype"])
         run = _Run.cur = {"sched": sched, "obs": []}
         its = {}
-        # The kernel disables the cyclic collector for the run, but serpent's dumps()/loads() end with gc.enable(): from the first
-        # serpent message on, collections would run at allocation-count dependent (i.e. process-history dependent) moments and
-        # finalise stream iterators / temporary proxies - whose __del__ talks to the daemon - in whatever thread happens to
-        # allocate.  Keep the collector off for the whole scenario; finalisation is an explicit step of the plan ('forget').
-        real_gc_enable = gc.enable
-        gc.enable = lambda: None
-        gc.disable()
         variant = "combined" if plan.get("combined") else ("external-loop" if plan.get("external_loop") else None)
         if variant:
             plain = ctx.violate     # signatures of the combined-daemon / external-loop variants are told apart by their key
@@ -564,7 +577,6 @@ class StreamWorld(World):
         try:
             self._drive(ctx, run, its)
         finally:
-            gc.enable = real_gc_enable
             _Run.cur = None
             for it in its.values():     # _StreamResultIterator.__del__ calls close(): make that a no-op at teardown
                 it.proxy = None
@@ -621,6 +633,8 @@ class StreamWorld(World):
             def chatter():
                 # unrelated background traffic: a request every POLL/4 s for the whole run (not part of the model)
                 px = CL.Proxy(ping_uri)
+                if plan.get("timeout") == 0.0:
+                    px._pyroTimeout = None
                 while not chat["stop"]:
                     try:
                         px.ping()
@@ -713,8 +727,8 @@ class StreamWorld(World):
                 cctx.correlation_id = uuid.UUID(int=((plan.get("seed", 0) + 1) * 1000003 + 7919 * (k + 1)) & ((1 << 128) - 1), version=4)
                 corr_used[0] = True
             proxy = CL.Proxy(uri)
-            if plan.get("timeout"):
-                proxy._pyroTimeout = float(plan["timeout"])
+            if plan.get("timeout") is not None:
+                proxy._pyroTimeout = float(plan["timeout"]) or None     # 0.0: explicitly no timeout
             proxies[p] = proxy
             box = boxes[p]
             while True:
@@ -743,6 +757,13 @@ class StreamWorld(World):
                 sched.quiesce()
             else:
                 sched.settle(5.0)
+            if (plan.get("net") or {}).get("p_retry_errno"):
+                # a server thread may be sleeping in a retry back-off in front of bytes / an end-of-stream it has not read yet
+                for _ in range(120):
+                    if not any((not sv.closed) and (len(sv.rx) or sv.eof or sv.reset) for _c, sv in net.conns):
+                        break
+                    sched.sleep(1.0)
+                    sched.settle(5.0)
 
         def start(p, op):
             """hand one op to the owning client thread"""
@@ -969,6 +990,9 @@ class StreamWorld(World):
             ctx.probe("preempted")
         if getattr(sched, "stalls", 0):
             ctx.probe("stalled")
+        if net.stats.get("retry_errno"):
+            ctx.probe("transient_socket_errors")
+            ctx.info["retry_errno"] = net.stats["retry_errno"]
         if state["par"]:
             ctx.probe("concurrent_ops")
         if corr_used[0]:
